@@ -137,3 +137,10 @@ for K in (2, 3, 4):
     QM(('C11', 'C08'), 'dupunit.K%d' % K, 'harness/dup_unit.c', defs=['-DK=%d' % K], unwind=K + 3, stub=['cJSON_Duplicate_rec'],
        unwindset=ML(K + 3, 40) + ['cJSON_Delete:1', 'cJSON_Delete.0:%d' % (K + 2), 'memcmp.0:66', 'vf_memcpy.0:66', 'strlen.0:4', 'strcmp.0:4'],
        cost=K * 4, tiers=('quick', 'thorough') if K == 3 else ('thorough',), functions=DUPFN)
+
+# ------------------------------------------------------------------ C12 compare
+for K in (2, 3):
+    for ka, nm in ((8, 'number'), (32, 'array'), (64, 'object'), (-1, 'other')):
+        QM(('C12',), 'cmpunit.%s.K%d' % (nm, K), 'harness/compare_unit.c', defs=['-DK=%d' % K, '-DKA=%d' % ka], unwind=K + 3, stub=['cJSON_Compare'],
+           unwindset=ML(K + 3, 60) + ['memcmp.0:66', 'strcmp.0:5', 'keq.0:5'], cost=K * 10, tiers=('quick', 'thorough') if K == 2 else ('thorough',),
+           functions=['cJSON_Compare', 'compare_double', 'get_object_item', 'case_insensitive_strcmp'], timeout=1500)
